@@ -38,6 +38,13 @@ import Pog.Lemmas.Fresh
 -/
 -- INDEX Pog.LoaderProps: respPromoName_eq_iff, promotion_names_differ_unless_prefix, promotion_names_injective_same_operation, promotion_names_injective_partial, response_vs_body_promotion_names_disjoint, promotion_name_collision_arbitrary_keys, promotion_name_collision_same_response, promotion_name_collision_request_body, promotion_name_collision_parameters, promotion_name_collision_after_sanitize, post_process_response_name_collision_counterexample, post_process_request_name_collision_counterexample
 /-
+  C20, the argument list of an endpoint method at the loader (F4 repaired: an operation-level parameter overrides the path-level one
+  with the same (name, in)):
+    parameters_no_duplicate_key            no two parsed parameters of an operation share (name, in) when neither declared list does
+    parameters_override_former_witness     the former witness (`id`/path at both levels): one entry, the operation-level one
+-/
+-- INDEX Pog.LoaderProps: parameters_no_duplicate_key, parameters_override_former_witness
+/-
   C20, tag attribute names on APIClient (Pog/Model/ClientGen.lean; claimed from Pog/Props/ClientGen.lean):
     property_names_valid_partial           valid non-keyword identifiers (and client.py compiles) when every tag has an ASCII alphanumeric
     property_name_never_config             no property is ever named `config` (RESERVED_NAMES, regenerated table)
